@@ -151,7 +151,9 @@ pbody_set(const char * tok)
 	}
 }
 
-/* *owned: the caller frees the block */
+static uint8_t * body_base = NULL;	/* the block an owned body lives in */
+
+/* *owned: the caller frees body_base */
 static uint8_t *
 get_body(const char * tok, size_t * len, int * owned)
 {
@@ -166,7 +168,20 @@ get_body(const char * tok, size_t * len, int * owned)
 		return (NULL);
 	}
 	*owned = 1;
-	return (hc_unhex(tok, len));
+	{
+		/*
+		 * the body sits at an address that is 0, 1, 2 or 3 past a word boundary (by its length): callers hand over
+		 * pointers into the middle of their own buffers, and the hash must not care
+		 */
+		uint8_t * b = hc_unhex(tok, len);
+		size_t off = *len & 3;
+
+		body_base = malloc(*len + off + 1);
+		if (*len > 0)
+			memcpy(body_base + off, b, *len);
+		free(b);
+		return (body_base + off);
+	}
 }
 
 static void
@@ -343,8 +358,10 @@ main(void)
 		} else {
 			printf("bad-op");
 		}
-		if (owned)
-			free(c.body);
+		if (owned) {
+			free(body_base);
+			body_base = NULL;
+		}
 		while (n > 0)
 			free(c.a[--n]);
 		HC_END();
